@@ -169,29 +169,29 @@ def run(rep):
                            construct='store:' + fld, node=n)
 
     # ---- B5 -------------------------------------------------------------------
+    from . import csem
     for fn in ('_lookup', '_lookupAll', '_subscriptions'):
-        f = u.func(fn)
-        g = ccfg(f)
-        res = nodes_calling(g, 'PySequence_Tuple')
-        ok = len(res) == 1
-        detail = 'PySequence_Tuple(required) calls: %d' % len(res)
-        if ok:
-            r = res[0]
-            touch = []
-            for n in g.nodes:
-                if n.e is None or n is r:
+        bad = []
+        touched = 0
+        for ps in csem.S(u, fn):
+            res = [i for i, e in enumerate(ps.events) if e.kind == 'call' and
+                   e.name == 'PySequence_Tuple' and csem.args_of(e) == ['required']]
+            for i, e in enumerate(ps.events):
+                txt = repr(e)
+                if e.kind == 'call' and e.name in csem.NOISE:
                     continue
-                if any(x.k == 'field' and x.a[1] in vol for x in n.e.walk()) or \
-                        node_calls(n, '_getcache') or node_calls(n, '_subcache'):
-                    touch.append(n)
-            bad = [n for n in touch if not g.dominated_by(n, lambda m: m is r)]
-            ok = bool(touch) and not bad
-            detail = ('PySequence_Tuple(required) dominates all %d cache accesses'
-                      % len(touch)) if ok else \
-                {'cache_touched_before_required_is_resolved':
-                 [show(n.e)[:70] for n in bad]}
-        ccheck(rep, 'B5', fn, ok, detail, construct='resolve-first',
-               node=res[0] if res else None)
+                if any(('self->' + fld) in txt for fld in vol) or \
+                        (e.kind == 'call' and e.name in ('_getcache', '_subcache')):
+                    touched += 1
+                    if not res or res[0] > i:
+                        bad.append(txt[:70])
+                    break
+        ok = touched > 0 and not bad
+        ccheck(rep, 'B5', fn, ok,
+               'PySequence_Tuple(required) precedes the first cache access on all '
+               '%d paths that touch a cache' % touched if ok else
+               {'cache_touched_before_required_is_resolved': sorted(set(bad))[:3]},
+               construct='resolve-first')
 
     # ---- B3 (Python side) -------------------------------------------------------
     mod = repo.module('adapter.py')
